@@ -295,7 +295,7 @@ def selectMethod (d : CryptDict) : Out (Nat × Method) :=
           | none => .ok d.bits
         match f.method with
         | .v2 => bits.bind fun b => .ok (b, .v2)
-        | .aesv2 => bits.bind fun b => .ok (b, .aesv2)
+        | .aesv2 => .ok (128, .aesv2)      -- the key of AESV2 has 128 bits, whatever `/Length` says
         | .aesv3 => if d.v = 5 then bits.bind fun b => .ok (b, .aesv3) else .err
         | .none => .err
   else .err
